@@ -36,21 +36,49 @@ trusted = [
 sys.path.insert(0, os.path.join(build.VERIF, "translate"))
 
 _TABLES = {}
+_CACHE = os.path.join(build.LEAN, "MptModel", "Generated", "LayoutTables.gen.json")
+
+
+class _K:
+    """what the generators need of one kind: names of the getter table, of the single-character table, and the
+    setter chain (names, handler term)"""
+    def __init__(self, d):
+        self.name = d["name"]
+        self.gets = [tuple(g) for g in d["gets"]]
+        self.single = [tuple(g) for g in d["single"]]
+        self.sets = [([tuple(n) for n in names], act) for names, act in d["sets"]]
 
 
 def _tables():
-    """python view of the extracted tables of the repo under test (names, types) for the generators"""
+    """python view of the extracted tables of the repo under test for the generators.  When the sources of the
+    tree under test are no longer translatable the tables of the last good extraction are used (stored on every
+    successful run), so that the generators still run against a changed tree."""
+    import json
     import layout_extract as lx
     repo = build.REPO
     if repo in _TABLES:
         return _TABLES[repo]
-    lay = lx.Layout(repo)
-    lay.repo = repo
-    kinds = []
-    for k in lx.KINDS:
-        kinds.append(lx.extract_kind(repo, lay, k))
-    _TABLES[repo] = kinds
-    return kinds
+    try:
+        lay = lx.Layout(repo)
+        lay.repo = repo
+        data = []
+        for kn in lx.KINDS:
+            k = lx.extract_kind(repo, lay, kn)
+            data.append({"name": k.name, "gets": [list(g) for g in k.gets], "single": [list(g) for g in k.single],
+                         "sets": [[[list(n) for n in names], act] for names, act in k.sets]})
+        try:
+            tmp = _CACHE + ".tmp%d" % os.getpid()
+            with open(tmp, "w") as f:
+                json.dump(data, f)
+            os.replace(tmp, _CACHE)
+        except OSError:
+            pass
+    except Exception:
+        if not os.path.exists(_CACHE):
+            raise
+        data = json.load(open(_CACHE))
+    _TABLES[repo] = [_K(d) for d in data]
+    return _TABLES[repo]
 
 
 def generate(chk):
@@ -210,6 +238,19 @@ def scripts(tier, seed, scale=1):
                     for with_pre in ((True, False) if tier == "thorough" or v in vals[:6] or r_sub.random() < 0.15 else (True,)):
                         body = (pre if with_pre else []) + ["y set 0 %s %s" % (nm(n), h), "y get 0 %s" % nm(n), "y dump 0"]
                         out.append(("ex:%s:%s:%s:%d" % (k.name, n, h[:24], with_pre), new + body))
+                # handlers with a second state behind the property (axis intervals: the log flag): every value again
+                # from that state
+                alt = {".intervals": "log", ".clip": "zx", ".align": "bez"}.get(act.split()[0])
+                if alt is not None:
+                    for v in vals + ["null", "nullstr"]:
+                        try:
+                            h = v if v in ("null", "nullstr") else hx(v)
+                        except UnicodeEncodeError:
+                            continue
+                        if "00" in [h[i:i + 2] for i in range(0, len(h), 2)]:
+                            continue
+                        out.append(("alt:%s:%s:%s" % (k.name, n, h[:24]),
+                                    new + ["y set 0 %s %s" % (nm(n), hx(alt)), "y set 0 %s %s" % (nm(n), h), "y get 0 %s" % nm(n), "y dump 0"]))
                 for special in ("null", "nullstr"):
                     out.append(("ex:%s:%s:%s" % (k.name, n, special), new + pre + ["y set 0 %s %s" % (nm(n), special), "y dump 0"]))
                     out.append(("ex:%s:%s:%s:d" % (k.name, n, special), new + ["y set 0 %s %s" % (nm(n), special), "y dump 0"]))
